@@ -14,7 +14,7 @@ from .ex import Exec, Frame, exc_is, _type_of_value
 from .ops import eq, simp, truthy
 from .resolve import Repo
 from .run import Infeasible, Obligation, RaiseSig, ReturnSig
-from .ty import (Rec, SeqOf, Unsupported, V, VBool, VDict, VExc, VList, VNone, VOpt, VRec, VTuple, VInt, VStr, VNode,
+from .ty import (NodeTy, Rec, SeqOf, Unsupported, V, VBool, VDict, VExc, VList, VNone, VOpt, VRec, VTuple, VInt, VStr, VNode,
                  VAny, VOpaque, VConst)
 
 
@@ -104,13 +104,24 @@ def verify_contract(ex: Exec, c: api.Contract):
             for name in sorted(n for n in c.methods if n.startswith("on_raise") or n.startswith("at_exit")):
                 vals = dict(params)
                 vals["old"] = old
-                if rs.exc.msg is not None:
+                from .ty import lift
+                vals["exc_class"] = lift(cls)
+                ety = c.opts.get("exc")
+                if rs.exc.msg is not None and (ety is None or type(rs.exc.msg) is type(ety.fresh("t"))):
                     vals["exc"] = rs.exc.msg  # the value carried by the exception (exit code of SystemExit)
+                elif ety is not None:
+                    vals["exc"] = ety.fresh("exc")  # no (typed) payload: arbitrary; clauses guard on exc_class
                 if name.startswith("at_exit"):
-                    # exit-point assertion: may name locals of the function as ghost witnesses (never assumed by callers)
+                    # exit-point assertion: may name locals of the function as ghost witnesses (never assumed by
+                    # callers); a local that is not bound at this exit is ARBITRARY (the clause must hold for any value)
                     for x in c.methods[name].args.args:
-                        if x.arg not in vals and fr.lookup(x.arg) is not None:
+                        if x.arg in vals or x.arg in ("stdout", "stderr"):
+                            continue
+                        if fr.lookup(x.arg) is not None:
                             vals[x.arg] = fr.lookup(x.arg)
+                        elif x.arg in c.types:
+                            vals[x.arg] = c.types[x.arg].fresh(x.arg)
+                            ex.on_fresh(vals[x.arg])
                 ex.oblige("post", truthy(ex.spec_eval(c, name, vals)), finfo.node.lineno, label=f"post.{name}")
             return
         for name in sorted(n for n in c.methods if n.startswith("at_exit")):
@@ -246,7 +257,14 @@ def discharge(ob: Obligation, timeout_ms=10000, use_cvc5=True):
                 vals[k] = f"<unrenderable: {e}>"
         return {"valid": True, "inputs": vals}
 
-    r, payload = guarded_check(assertions, first, on_sat)
+    def on_unknown(m):
+        vals = {}
+        for k, v in ob.inputs.items():
+            vals[k] = model_value(m, v)
+        return vals
+
+    r, payload = guarded_check(assertions, first, on_sat, on_unknown=on_unknown)
+    ob.candidate = (payload or {}).get("cand") if r == "unknown" else None
     ob.solver = f"z3-{z3.get_version_string()}"
     if r == "unsat":
         ob.verdict = "discharged"
@@ -335,7 +353,7 @@ def cover_check(ob: Obligation, timeout_ms=3000):
 # ---------------------------------------------------------------------------------------------
 # counter-model -> python values
 # ---------------------------------------------------------------------------------------------
-def model_value(m, v: V, depth=0):
+def model_value(m, v: V, depth=0, mode="full"):
     """Concrete Python rendering of a symbolic input under model m (best effort, JSON-able)."""
     from .ops import _unescape
     from .ty import ValSort
@@ -363,17 +381,7 @@ def model_value(m, v: V, depth=0):
     if isinstance(v, VRec):
         return {"__rec__": v.ty.name, **{k: model_value(m, x, depth + 1) for k, x in v.fields.items()}}
     if isinstance(v, VNode):
-        t = ev(v.t)
-        if z3.is_true(ev(v.t == v.ty.null)):
-            return None
-        out = {"__node__": str(t)}
-        for attr, aty in v.ty.attrs.items():
-            if attr in v.ty._funcs:
-                try:
-                    out[attr] = model_value(m, aty.wrap(v.ty._funcs[attr](v.t)), depth + 1)
-                except Exception as e:  # noqa
-                    out[attr] = f"<{e}>"
-        return out
+        return _node_value(m, v, depth, mode)
     if isinstance(v, VAny):
         t = ev(v.t)
         return _val_to_py(m, t)
@@ -384,6 +392,33 @@ def model_value(m, v: V, depth=0):
     if isinstance(v, VConst):
         return repr(v.py)
     return repr(v)
+
+
+def _node_value(m, v, depth, mode):
+    """Tree-shaped rendering: children downward (bounded), ancestors/siblings as chains without their subtrees."""
+    ev = lambda t: m.eval(t, model_completion=True)
+    nty = v.ty
+    if z3.is_true(ev(v.t == nty.null)):
+        return None
+    out = {"__node__": str(ev(v.t))}
+    scalars = [a for a, aty in nty.attrs.items() if not isinstance(aty, (NodeTy,)) and not (isinstance(aty, SeqOf) and isinstance(aty.elem, NodeTy))]
+    for attr in scalars:
+        if attr in nty._funcs:
+            try:
+                out[attr] = model_value(m, nty.attrs[attr].wrap(nty._funcs[attr](v.t)), depth + 1)
+            except Exception as e:  # noqa
+                out[attr] = f"<{e}>"
+    if mode in ("full", "down") and depth < 5:
+        for attr, aty in nty.attrs.items():
+            if isinstance(aty, SeqOf) and isinstance(aty.elem, NodeTy) and attr in nty._funcs:
+                seq = nty._funcs[attr](v.t)
+                n = ev(z3.Length(seq)).as_long()
+                out[attr] = [_node_value(m, VNode(seq[i], nty), depth + 1, "down") for i in range(min(n, 6))]
+    if mode in ("full", "up") and depth < 8:
+        for attr, aty in nty.attrs.items():
+            if isinstance(aty, NodeTy) and attr in nty._funcs:
+                out[attr] = _node_value(m, VNode(nty._funcs[attr](v.t), nty), depth + 1, "up" if mode == "up" or attr == "parent" else "side")
+    return out
 
 
 def _val_to_py(m, t):
